@@ -146,6 +146,11 @@ impl Stats {
             }
         }
         obs.add(&format!("gm_ops_checked_{kind}"), self.get(C::OpsChecked));
+        // recorded only: rebuilt containers that differ under the container's own `==`
+        let uneq = self.get(C::Rebuilds) - self.get(C::RebuildStructEq);
+        if uneq > 0 {
+            obs.add(&format!("gm_rebuild_not_equal_under_PartialEq_{kind}"), uneq);
+        }
     }
 }
 
